@@ -26,6 +26,9 @@ pub struct Case {
     /// optional joint limits: J1..J5 whole circle, J6 the window centre +- half width (centre within +-2.5 rad)
     #[serde(default)]
     pub j6_window: Option<(LimitSpec, f64, f64)>,
+    /// call history: the same robot is first asked for the same pose with this other J6 (answers ignored)
+    #[serde(default)]
+    pub earlier_j6: Option<f64>,
 }
 
 impl Property for C06 {
@@ -35,7 +38,7 @@ impl Property for C06 {
     }
     fn rule(&self) -> String {
         "robots dof 5 and 6 (sane + negative families) x poses (stack forward of a joint vector; raw SE(3); singular classes) x j6 / previous (finite, |j6|<=10) x entry points (all four on dof-5 robots, the two 5-DOF ones on dof-6 robots) \
-         x {bare, axial Tool/Frame, arbitrary Base, combinations up to depth 2} x {no limits, limits with J1..J5 whole-circle and an off-centre J6 window (then previous may be the CONSTRAINT_CENTERED marker, whose J6 element is 0.0)}. Non-trivial: at least one answer returned. Distinct = distinct serialized cases."
+         x {bare, axial Tool/Frame, arbitrary Base, combinations up to depth 2} x {no limits, limits with J1..J5 whole-circle and an off-centre J6 window (then previous may be the CONSTRAINT_CENTERED marker, whose J6 element is 0.0)}. One case in four has a call history (the same pose solved just before with another J6). Non-trivial: at least one answer returned. Distinct = distinct serialized cases."
             .into()
     }
     fn assumptions(&self) -> Vec<String> {
@@ -64,14 +67,15 @@ impl Property for C06 {
             prop_oneof![1 => Just(0.0), 4 => -10.0..10.0f64],
             prop_oneof![3 => Just(vec![]), 4 => prop::collection::vec(axial_layer(1.0), 1..3)],
             prop_oneof![3 => Just(None), 1 => (limits_wide(), -2.5..2.5f64, 0.3..2.5f64).prop_map(Some)],
+            prop_oneof![3 => Just(None), 1 => (-3.0..3.0f64).prop_map(Some)],
         )
-            .prop_map(|(robot, pose, prev, entry, j6, layers, j6_window)| {
+            .prop_map(|(robot, pose, prev, entry, j6, layers, j6_window, earlier_j6)| {
                 // with limits, mostly ask for a J6 inside the window (otherwise nothing is returned and nothing can be compared)
                 let j6 = match &j6_window {
                     Some((_, c6, w)) if (j6 * 7.0).fract().abs() < 0.8 => c6 + w * (j6 / 10.0),
                     _ => j6,
                 };
-                Case { robot, pose, prev, entry, j6, layers, j6_window }
+                Case { robot, pose, prev, entry, j6, layers, j6_window, earlier_j6 }
             })
             .boxed()
     }
@@ -102,6 +106,16 @@ impl Property for C06 {
         };
         let na = to_na(&tcp);
         let prev = c.prev.resolve(src);
+        if let Some(e6) = c.earlier_j6 {
+            // history: the same pose was solved just before with another J6 (explicitly and, for the continuing entry, through previous)
+            let mut p2 = prev;
+            p2[5] = e6;
+            let _ = call_entry(kin.as_ref(), 2, &na, &p2, e6).map_err(|m| viol!("no panic", "inverse_5dof (earlier call): {}", m))?;
+            if entry % 2 == 1 && !p2[0].is_nan() {
+                let _ = call_entry(kin.as_ref(), 3, &na, &p2, e6).map_err(|m| viol!("no panic", "inverse_continuing_5dof (earlier call): {}", m))?;
+            }
+            ctx.class("history:the same pose was solved with another J6 just before");
+        }
         let sols = call_entry(kin.as_ref(), entry, &na, &prev, c.j6).map_err(|m| viol!("no panic", "{}: {}", what, m))?;
         ctx.class(&format!("answers:{}", sols.len().min(9)));
 
